@@ -168,7 +168,13 @@ def _spaces(tier: str, seed: int) -> dict[str, ps.SubSpace]:
 
 def plan(tier: str, seed: int):
     sp = _spaces(tier, seed)
-    shards = [(tier, seed, name, lo, hi) for name, lo, hi in ps.shards_for(list(sp.values()))]
+    shards = []
+    for name, lo, hi in ps.shards_for(list(sp.values())):
+        if name == "xproc-pickle":  # (each case starts another interpreter: spread them over the workers)
+            shards += [(tier, seed, name, i, min(i + 4, hi)) for i in range(lo, hi, 4)]
+        else:
+            shards.append((tier, seed, name, lo, hi))
+    shards.sort(key=lambda sh: 0 if sh[2] == "xproc-pickle" else 1)
     meta = {
         "space_size": sum(s.size for s in sp.values()),
         "subspaces": {s.name: s.size for s in sp.values()},
